@@ -308,6 +308,31 @@ def adjoint_programs():
     return P
 
 
+ARH_TABLE = [('diagonal', 1, 1), ('diagonal', 2, 2), ('general', 1, 1), ('general', 2, 2), ('scalar', 1, 1), ('scalar', 2, 1),
+             ('additive', 1, 1), ('additive', 2, 2)]
+
+
+def arh_programs():
+    """C10: one step of the real AdjointReversibleHeun vs backprop through one step of the real ReversibleHeun (group 'Arh')"""
+    from . import prog_arh as pa
+    P = []
+    for noise, d, m in ARH_TABLE:
+        fn, sample, funcs = pa.make_arh(noise, d, m)
+        P.append(Prog(f"arh_{noise}_{d}{m}", 'Arh', fn, sample, funcs=funcs, rg=('y0', 'z0', 'f0', 'g0', 'theta'), tol=1e-10,
+                      props=('C10',)))
+    return P
+
+
+def adjloop_programs():
+    """C09 / C10: the real _SdeintAdjointMethod.forward / .backward (reversible pair, 3 output times) vs backprop (group 'AdjLoop')"""
+    from . import prog_adjloop as pl
+    P = []
+    for noise, d, m in [('diagonal', 1, 1), ('general', 1, 1), ('scalar', 1, 1), ('additive', 1, 1), ('general', 2, 2)]:
+        fn, sample, funcs = pl.make_adjloop(noise, d, m)
+        P.append(Prog(f"adjloop_{noise}_{d}{m}", 'AdjLoop', fn, sample, funcs=funcs, rg=('y0', 'theta'), tol=1e-9, props=('C09', 'C10')))
+    return P
+
+
 def all_programs():
     return (brownian_programs() + solver_programs() + loop_programs() + logqp_programs() + batch_programs() + staged_programs() + grad_programs()
-            + iface_programs() + ops_programs() + adjoint_programs())
+            + iface_programs() + ops_programs() + adjoint_programs() + arh_programs() + adjloop_programs())
